@@ -586,7 +586,9 @@ def checkFrame (spec obs0 : Mol) (t : Touched) (genExcl : List Ixn) : List (Stri
   (obs.atoms.filterMap fun o =>
     if spec.atoms.any (·.node == o.node) then none else some ("atom", s!"atom {o.node} is not an atom of any block instance")) ++
   (spec.ixns.eraseDups.filterMap fun i =>
-    if keyOf i ∈ t.keys ∨ i.atoms.any (· ∈ t.removed) ∨ countIn i obs.ixns = countIn i spec.ixns then none
+    if keyOf i ∈ t.keys ∨ i.atoms.any (· ∈ t.removed) ∨ countIn i obs.ixns = countIn i spec.ixns ∨
+        -- a modification may add an interaction that happens to equal a block interaction of its residue
+        (countIn i obs.ixns > countIn i spec.ixns ∧ i.atoms.all (· ∈ t.modAtoms)) then none
     else some ("ixn", s!"block interaction {i.sect} {i.atoms} {i.params}: {countIn i obs.ixns} times, expected {countIn i spec.ixns}; no link targets it")) ++
   (obs.ixns.eraseDups.filterMap fun i =>
     if countIn i spec.ixns > 0 ∨ keyOf i ∈ t.keys ∨ i.atoms.all (· ∈ t.modAtoms) then none
